@@ -13,7 +13,7 @@ use crate::svm::{addr, meta, process, Acc, Db, TxError};
 use crate::orders::Side;
 use crate::world::{self, ix, sys, W};
 
-const ROLES: [&str; 13] = ["MARKET_KEEPER", "ORDER_KEEPER", "ORACLE_CONTROLLER", "PRICE_KEEPER", "FEATURE_KEEPER", "CONFIG_KEEPER", "GT_CONTROLLER", "MARKET_CONFIG_KEEPER", "MIGRATION_KEEPER", "TREASURY_OWNER", "TREASURY_ADMIN", "TREASURY_KEEPER", "TREASURY_WITHDRAWER"];
+const ROLES: [&str; 14] = ["RESTART_ADMIN", "MARKET_KEEPER", "ORDER_KEEPER", "ORACLE_CONTROLLER", "PRICE_KEEPER", "FEATURE_KEEPER", "CONFIG_KEEPER", "GT_CONTROLLER", "MARKET_CONFIG_KEEPER", "MIGRATION_KEEPER", "TREASURY_OWNER", "TREASURY_ADMIN", "TREASURY_KEEPER", "TREASURY_WITHDRAWER"];
 
 /// who is entitled: the store admin, the fee receiver, or the holder(s) of some role(s)
 #[derive(Clone, Debug)]
@@ -23,6 +23,8 @@ enum Need {
     AnyRole(&'static [&'static str]),
     /// the treasury receiver address of the store
     Receiver,
+    /// after a cluster restart (and only then) a RESTART_ADMIN holder has the admin's rights
+    AdminOrRestartAdminAfterRestart,
 }
 
 struct Probe {
@@ -50,7 +52,7 @@ fn probes() -> Vec<Probe> {
     }
     use Need::*;
     // ---- store administration
-    p!("update_last_restarted_slot", Admin, |w, _db, by| {
+    p!("update_last_restarted_slot", AdminOrRestartAdminAfterRestart, |w, _db, by| {
         crate::svm::set_last_restart_slot(7); // a cluster restart happened
         (ix(w.pid, a::UpdateLastRestartedSlot { authority: by, store: w.store }, i::UpdateLastRestartedSlot {}), vec![by])
     });
@@ -430,6 +432,7 @@ pub fn run(cli: &Cli) -> Report {
         let db = if p.name.starts_with("gt_") || p.name.starts_with("update_gt") { &db_gt } else if p.name.starts_with("order:") { &db_orders } else if p.name.starts_with("glv:") { &db_glv } else if p.name.starts_with("lp:") { &db_lp } else if p.name.starts_with("treasury:") { &db_treasury } else { &db };
         let entitled: Vec<Pubkey> = match &p.need {
             Need::Admin | Need::Receiver => vec![w.admin],
+            Need::AdminOrRestartAdminAfterRestart => vec![w.admin, holder("RESTART_ADMIN")],
             Need::Role(r) => vec![holder(r)],
             Need::AnyRole(rs) => rs.iter().map(|r| holder(r)).collect(),
         };
@@ -452,7 +455,7 @@ pub fn run(cli: &Cli) -> Report {
         }
         // 2. everybody else is rejected
         let mut others: Vec<(String, Pubkey)> = vec![("stranger".into(), w.stranger)];
-        if !matches!(p.need, Need::Admin | Need::Receiver) {
+        if !matches!(p.need, Need::Admin | Need::Receiver | Need::AdminOrRestartAdminAfterRestart) {
             others.push(("admin".into(), w.admin));
         }
         for role in ROLES {
